@@ -380,11 +380,11 @@ def adjudicate(check, t, ob):
                       [Fraction(2 ** 40), Fraction(-3 * 2 ** 39), Fraction(2 ** 41)][:n]]
             from ..cemit import hexfloat
             for v in cands:
-                cpp = ('#include <PhQ/%s.hpp>\n#include <cstdio>\n#include <cstring>\n#include <cmath>\nint main() {\n  const %s raw[%d] = {%s};\n'
+                cpp = ('#include <PhQ/%s.hpp>\n#include <cstdio>\n#include <cstring>\n#include <cmath>\n#include <limits>\nint main() {\n  const %s raw[%d] = {%s};\n'
                        '  auto q = PhQ::%s<%s>::Zero(); std::memcpy(&q, raw, sizeof raw);\n  PhQ::%s<%s> b(q.Magnitude(), q.%s());\n'
-                       '  %s got[%d]; std::memcpy(got, &b, sizeof got);\n  %s norm = 0; for (int i = 0; i < %d; ++i) norm += raw[i] * raw[i]; norm = std::sqrt(norm);\n'
-                       '  int bad = 0; for (int i = 0; i < %d; ++i) if (!(std::fabs(got[i] - raw[i]) <= 1e-6 * norm)) { std::printf("MISMATCH component %%d: rebuilt %%.17g, original %%.17g\\n", i, (double)got[i], (double)raw[i]); bad++; }\n'
-                       '  return bad ? 1 : 0;\n}\n') % (cls, T, n, ', '.join(hexfloat(x, T) for x in v), cls, T, cls, T, dn, T, n, T, n, n)
+                       '  %s got[%d] = {}; std::memcpy(got, &b, sizeof(raw));\n  %s norm = 0; for (int i = 0; i < %d; ++i) norm += raw[i] * raw[i]; norm = std::sqrt(norm);\n'
+                       '  int bad = 0; for (int i = 0; i < %d; ++i) if (!(std::fabs(got[i] - raw[i]) <= 64 * std::numeric_limits<%s>::epsilon() * norm)) { std::printf("MISMATCH component %%d: rebuilt %%.21Lg, original %%.21Lg\\n", i, (long double)got[i], (long double)raw[i]); bad++; }\n'
+                       '  return bad ? 1 : 0;\n}\n') % (cls, T, n, ', '.join(hexfloat(x, T) for x in v), cls, T, cls, T, dn, T, n, T, n, n, T)
                 r, err = replay.build_and_run(cpp, os.path.join(check.work, 'replay'), 'r_' + re.sub(r'\W+', '_', ob.name)[:150])
                 if err:
                     rec['replay_error'] = err[:600]
@@ -417,13 +417,21 @@ def adjudicate(check, t, ob):
                 break
             out = replay.parse_out(r.stdout)
             got = out.get('RET') if (f.ret != ('void',) or f.kind == 'ctor') else out.get('POST self')
+            exact = [Fraction(x) if not isinstance(x, float) else None for x in (got or [])]
             got = [float(x) for x in (got or [])]
             bad = []
             if what in ('inv', 'unit', 'parallel', 'scale'):
                 n = 3 if 'Planar' not in f.record else 2
                 d = got[:n]
                 nn = sum(x * x for x in d)
-                if abs(nn - 1) > 1e-9 and nn != 0:
+                # at the resolution of the numeric type (the components are read back exactly): |d|^2 within 16 units in the last place of 1
+                Tn = low.record(f.record).targs[-1]
+                eps = {'float': Fraction(1, 2 ** 23), 'double': Fraction(1, 2 ** 52), 'long double': Fraction(1, 2 ** 63)}[Tn]
+                if all(x is not None for x in exact[:n]):
+                    nx = sum(x * x for x in exact[:n])
+                    if nx != 0 and abs(nx - 1) > 16 * eps:
+                        bad.append('stored %s direction %r has squared length 1 %+.3g, i.e. %.0f units in the last place of the type away from 1' % (Tn, d, float(nx - 1), float(abs(nx - 1) / eps)))
+                elif abs(nn - 1) > 1e-9 and nn != 0:
                     bad.append('stored direction %r has squared length %r' % (d, nn))
                 xs = [float(x) for x in list(inputs.values())[-1]][:n] if len(inputs) == 1 or what != 'inv' else None
                 if xs and not bad and what in ('parallel', 'unit', 'scale'):
